@@ -86,6 +86,7 @@ class Scenario:
         self.rawvals = {}
         self._raw = None
         self.deferred = []
+        self.nested_orphans = []
         self.interrupted = set()
         self.orphan_stack = []
         self.stale = bool(self.opts.get('stale'))    # a recorded handle was removed without unadopt (C13 histories)
@@ -210,8 +211,13 @@ class Scenario:
             while pl.strong:
                 hv, tgt = pl.strong.pop(0)
                 snap = self.dead_snapshot(tgt)
+                norp = self.orphan_condition(tgt) if ('C03' in self.oracles and not self.stale and tgt in self.objs) else None
                 try:
                     E.drop_in_place(self.tmp(hv), RC, None)
+                    if norp is not None and norp[1] is not False:
+                        # judged when the enclosing operation has returned: the target may be a member of a group whose
+                        # members are destroyed a little later by the same outer collection
+                        self.nested_orphans.append((norp, 'inside op %d (drop of a handle stored in the dying value %s)' % (self.op_index, v.id)))
                     if snap is not None and snap != self.dead_snapshot(tgt):
                         raise Violation('C16' if 'C16' in self.oracles else 'C02', 'drop-of-dead-handle-has-effect',
                                         'dropping a handle to the already destroyed object %d changed its state %r -> %r' % (tgt, snap, self.dead_snapshot(tgt)))
@@ -1218,27 +1224,41 @@ class Scenario:
                          'object %d has no strong handle left after op %d but was not destroyed' % (i, self.op_index), subject=[i])
         orp = getattr(self, '_orphan', None)
         self._orphan = None
-        if orp is not None and not self.stale:
-            S, cond0 = orp
-            survivors = [y for y in S if self.alive(y) and y not in self.interrupted]
-            done = set()
-            for y in survivors:
-                if y in done:
-                    continue
-                # evaluated on the ledger as it is when the operation has returned (destructors may have
-                # created or removed handles re-entrantly)
-                r = self.orphan_condition(y)
-                if r is None:
-                    continue
-                S2, cond = r
-                done |= S2
-                if cond is False:
-                    continue
-                self.subject = sorted(S2)
-                msg = 'after op %d the adopted group %s is orphaned (every strong handle to its members is a recorded adoption held inside the group) but was not destroyed' % (self.op_index, sorted(S2))
-                if cond is True:
-                    raise Violation('C03', 'orphan-not-collected', msg, self.model_values(None))
-                self.require(z3.Not(cond), 'C03', 'orphan-not-collected', msg)
+        self.orphan_check(orp, 'after op %d' % self.op_index)
+        if not self.dtor_stack:
+            pend, self.nested_orphans = self.nested_orphans, []
+            for (norp, when) in pend:
+                self.orphan_check(norp, when)
+
+    def orphan_check(self, orp, when):
+        """C03 by its letter: `orp` = (S, cond) computed for the object X of one drop (top-level or of a handle stored in a value
+        that is being destroyed) on the ledger right after that handle was removed: S = objects reachable from X through
+        recorded adoptions, cond = every strong handle to every member is a recorded adoption held inside S. If that held when
+        the handle went away, and the surviving members are still orphaned when the drop has returned (a destructor may have
+        taken new handles re-entrantly), the survivors are a violation."""
+        if orp is None or self.stale:
+            return
+        S, cond0 = orp
+        if cond0 is False:
+            return
+        survivors = [y for y in S if self.alive(y) and y not in self.interrupted]
+        done = set()
+        for y in survivors:
+            if y in done:
+                continue
+            r = self.orphan_condition(y)
+            if r is None:
+                continue
+            S2, cond = r
+            done |= S2
+            if cond is False:
+                continue
+            both = cond if cond0 is True else (cond0 if cond is True else z3.And(cond0, cond))
+            self.subject = sorted(S2)
+            msg = '%s the adopted group %s, orphaned by this drop (every strong handle to its members is a recorded adoption held inside the group), was not destroyed in full: %s survive' % (when, sorted(S), sorted(S2))
+            if both is True:
+                raise Violation('C03', 'orphan-not-collected', msg, self.model_values(None))
+            self.require(z3.Not(both), 'C03', 'orphan-not-collected', msg)
 
     def at_end(self):
         if self.opts.get('expect_all_freed'):
